@@ -1,5 +1,5 @@
 (** C15 — download policies persist and decide downloads exactly as specified. *)
-From ID Require Import Model.StoreOps Proofs.StoreFacts Proofs.PolicyFacts Base.BytesFacts.
+From ID Require Import Model.StoreOps Proofs.StoreFacts Proofs.PolicyFacts Base.BytesFacts Proofs.CapFacts.
 
 Theorem C15_get_after_set : forall T ns p,
   get_policy (set_policy T (tbl_insert N.compare ns p (t_policy T))) ns = p.
@@ -34,6 +34,15 @@ Theorem C15_filter_text_roundtrip : forall (u : bool) (f : filter_kind),
   filter_parse (filter_display u f) = Some f.
 Proof. exact filter_text_roundtrip. Qed.
 
+(** the download policy (like every per-document setting) survives reopening the store, with or without a
+    rebuild of the derived tables *)
+Theorem C15_survives_reopen : forall ks EH MF CAP s o, (o = SReopen \/ exists l b, o = SWipeReopen l b) ->
+  let T' := s_tables (fst (store_step ks EH MF CAP s o)) in
+  forall ns, get_sync_peers T' ns = get_sync_peers (s_tables s) ns /\
+             get_policy T' ns = get_policy (s_tables s) ns /\
+             get_cap T' ns = get_cap (s_tables s) ns.
+Proof. exact reopen_keeps_settings. Qed.
+
 Print Assumptions C15_get_after_set.
 Print Assumptions C15_set_touches_only_named.
 Print Assumptions C15_set_requires_document.
@@ -43,3 +52,4 @@ Print Assumptions C15_prefix_filter.
 Print Assumptions C15_exact_filter.
 Print Assumptions C15_is_prefix_meaning.
 Print Assumptions C15_filter_text_roundtrip.
+Print Assumptions C15_survives_reopen.
